@@ -142,6 +142,16 @@ func (ex *exprTr) tr(e ast.Expr) Val {
 		if o, ok := ex.info.Uses[x].(*types.Var); ok && o.Pkg() != nil && o.Parent() == o.Pkg().Scope() {
 			return ex.global(o)
 		}
+		// a variable of the enclosing function captured by a function literal: its current value
+		if vc.fn != nil {
+			for _, fv := range vc.fn.FreeVars {
+				if fv.Name() == x.Name {
+					if cell, ok := vc.vals[fv]; ok {
+						return Val{t: vc.load(ex.st, vc.lvOf(cell)), typ: ex.typeOf(e)}
+					}
+				}
+			}
+		}
 		vc.fail("contract: identifier %s is not a parameter, result, marker variable or global", x.Name)
 	case *ast.SelectorExpr:
 		if sel, ok := ex.info.Selections[x]; ok {
@@ -446,6 +456,21 @@ func (ex *exprTr) call(x *ast.CallExpr) Val {
 		}
 		return vc.detApply(dn, vs, rt)
 	}
+	// call through a function-valued struct field declared `purefield`
+	if sel, ok := x.Fun.(*ast.SelectorExpr); ok {
+		if fo, ok := ex.info.Uses[sel.Sel].(*types.Var); ok && fo.IsField() {
+			if key, ok := vc.pureFieldKey(ex.typeOf(sel.X), fo.Name()); ok {
+				fv := ex.tr(x.Fun)
+				var vs []Val
+				sig := fo.Type().Underlying().(*types.Signature)
+				for i, a := range x.Args {
+					v := ex.tr(a)
+					vs = append(vs, Val{t: ex.coerce(v, sig.Params().At(i).Type()), typ: sig.Params().At(i).Type()})
+				}
+				return vc.pureFieldApply(key, fv, vs, rt)
+			}
+		}
+	}
 	// name of callee
 	fun := x.Fun
 	var targs []types.Type
@@ -586,6 +611,37 @@ func (ex *exprTr) call(x *ast.CallExpr) Val {
 		a, b := ex.tr(x.Args[0]), ex.tr(x.Args[1])
 		pt := ex.typeOf(x.Args[0])
 		return Val{t: eq(ex.coerce(a, pt), ex.coerce(b, pt)), typ: rt}
+	case "verif_has":
+		base, idx := ex.tr(x.Args[0]), ex.tr(x.Args[1])
+		mt := base.typ.Underlying().(*types.Map)
+		name, sort, ms := vc.mapHeapName(mt)
+		m := app("select", vc.heapGet(ex.st, name, sort), base.t)
+		return Val{t: app("select", app(ms.present(), m), ex.coerce(idx, mt.Key())), typ: rt}
+	case "verif_fresh":
+		// fresh(x): the array / object / map x refers to was allocated by this activation (after entry)
+		a := ex.tr(x.Args[0])
+		var ref Term
+		switch a.typ.Underlying().(type) {
+		case *types.Slice:
+			ref = slRef(a.t)
+		case *types.Pointer, *types.Map:
+			ref = vc.asTerm(a)
+		default:
+			vc.fail("contract: fresh() needs a slice, pointer or map")
+		}
+		return Val{t: app(">=", ref, vc.allocGet(vc.entry)), typ: rt}
+	case "verif_lastLoad", "verif_lastCasOld", "verif_lastCasNew", "verif_lastCasOK":
+		if v, ok := ex.atomicGhost(name, rt); ok {
+			return v
+		}
+	case "verif_rangeseen":
+		// rangeseen(k): the map range loop this clause belongs to has already produced key k
+		seen, ok := ex.lookup("verif_rangeseen")
+		if !ok {
+			vc.fail("contract: rangeseen() is only available in clauses of a loop that ranges over a map without inserting into it")
+		}
+		a := ex.tr(x.Args[0])
+		return Val{t: app("select", seen.t, ex.coerce(a, seen.typ)), typ: rt}
 	case "verif_sameArray":
 		a, b := ex.tr(x.Args[0]), ex.tr(x.Args[1])
 		return Val{t: eq(slRef(a.t), slRef(b.t)), typ: rt}
@@ -700,6 +756,11 @@ func (ex *exprTr) specCall(fo *types.Func, x *ast.CallExpr, rt types.Type) Val {
 		for _, a := range args {
 			sorts = append(sorts, vc.S.sortOf(a.typ))
 			ts = append(ts, vc.asTerm(a))
+		}
+		if decl.Body != nil && vc.specProbing != nil && vc.specProbing[fo] {
+			// the recursive call met while the body is being probed for its heap reads: its heap
+			// arguments are not known yet, so nothing is declared (the probe's terms are discarded)
+			return Val{t: vc.S.zero(rt), typ: rt}
 		}
 		if decl.Body != nil {
 			for _, hn := range ex.specHeapReads(fo, decl, info, args, rt) {
